@@ -5,12 +5,15 @@ import (
 	"fmt"
 	"regexp"
 	"runtime/debug"
+	"sort"
 	"strings"
 	"time"
+	"unicode/utf8"
 
 	"verifharness/core"
 	"verifharness/plancoq"
 
+	"github.com/element-of-surprise/coercion/plugins"
 	"github.com/element-of-surprise/coercion/workflow"
 	"github.com/element-of-surprise/coercion/workflow/storage/cosmosdb"
 	"github.com/google/uuid"
@@ -26,6 +29,7 @@ type Rec struct {
 	IDs     []uuid.UUID                  // ids Read after every operation
 	Created map[uuid.UUID]*workflow.Plan // the harness's record of what it created (latest per id)
 
+	badStrs map[string]bool // strings seen in inputs that are not valid UTF-8
 	table   []string
 	tableIx map[string]int
 	steps   []string
@@ -44,7 +48,7 @@ type Rec struct {
 
 func NewRec(ctx context.Context, b *Backend, set *Set) *Rec {
 	return &Rec{B: b, Cx: plancoq.NewCtx(set.Lookup), Ctx: ctx, Created: map[uuid.UUID]*workflow.Plan{},
-		tableIx: map[string]int{}, OpHist: map[string]int{}}
+		tableIx: map[string]int{}, OpHist: map[string]int{}, badStrs: map[string]bool{}}
 }
 
 // Hangs counts, over the whole process, the vault calls that did not return within CallDeadline.
@@ -224,6 +228,7 @@ func (r *Rec) Created_(ref *workflow.Plan, err error, what, ctor string) error {
 		return fmt.Errorf("vault abandoned after a hang")
 	}
 	NormPlan(ref)
+	r.notePlan(ref)
 	if _, dup := r.Created[ref.ID]; !dup {
 		r.Created[ref.ID] = ref // used only to order actions read through the cosmos fake
 	}
@@ -330,6 +335,7 @@ func (r *Rec) UpdateAction(planID, id uuid.UUID, plugin string, st *workflow.Sta
 	r.guard("UpdateAction", func() { err = r.B.Vault.UpdateAction(r.Ctx, a) })
 	xs := make([]string, len(refAtts))
 	for i, at := range refAtts {
+		r.noteErr(at.Err)
 		at.Resp = NormValue(at.Resp)
 		xs[i] = r.Cx.Attempt(at)
 	}
@@ -345,6 +351,7 @@ func (r *Rec) Items(give, ref *workflow.Plan) int {
 	var err error
 	r.guard("VerifPlanItems", func() { raw, _, err = cosmosdb.VerifPlanItems(give) })
 	NormPlan(ref)
+	r.notePlan(ref)
 	if err != nil {
 		// the implementation refuses the plan: recorded as "no items"; the model must refuse it too
 		r.guard("abstraction of items", func() { r.items = append(r.items, core.Pair(r.Cx.Plan(ref), "[]")) })
@@ -384,9 +391,57 @@ func (r *Rec) SetBadType(sample any, what string) {
 	r.push(core.App("CSetBadType", ty+"%N"), what, nil, "None", map[string]any{"type": fmt.Sprintf("%T", sample)})
 }
 
+func (r *Rec) noteStr(s string) {
+	if !utf8.ValidString(s) {
+		r.badStrs[s] = true
+	}
+}
+
+func (r *Rec) noteErr(e *plugins.Error) {
+	for ; e != nil; e = e.Wrapped {
+		r.noteStr(e.Message)
+	}
+}
+
+// notePlan remembers the strings of an input plan that are not valid UTF-8 (names, descriptions,
+// plugin names, error messages of attempts).
+func (r *Rec) notePlan(p *workflow.Plan) {
+	r.noteStr(p.Name)
+	r.noteStr(p.Descr)
+	for _, b := range p.Blocks {
+		r.noteStr(b.Name)
+		r.noteStr(b.Descr)
+		for _, s := range b.Sequences {
+			r.noteStr(s.Name)
+			r.noteStr(s.Descr)
+		}
+	}
+	for _, a := range ObjectsOf(p).Actions {
+		r.noteStr(a.Name)
+		r.noteStr(a.Descr)
+		r.noteStr(a.Plugin)
+		for _, at := range a.Attempts {
+			r.noteErr(at.Err)
+		}
+	}
+}
+
+var tokIx = regexp.MustCompile(`(\d+)%N\)$`)
+
 // CaseTerm is the Coq term of the recorded case.
 func (r *Rec) CaseTerm() string {
-	return core.App("Build_case", core.Nat(r.B.Kind), core.List(r.table), core.List(r.steps), core.List(r.items))
+	var bad []string
+	keys := make([]string, 0, len(r.badStrs))
+	for s := range r.badStrs {
+		keys = append(keys, s)
+	}
+	sort.Strings(keys)
+	for _, s := range keys {
+		if m := tokIx.FindStringSubmatch(r.Cx.Tok(s)); m != nil {
+			bad = append(bad, m[1]+"%N")
+		}
+	}
+	return core.App("Build_case", core.Nat(r.B.Kind), core.List(r.table), core.List(r.steps), core.List(r.items), core.List(bad))
 }
 
 func (r *Rec) Steps() int     { return len(r.steps) }
